@@ -504,3 +504,162 @@ Example ex_border_contour :
   run_get_contour_unpadded [[true; true]; [true; false]] = [1; 0; 1; 1; 0] /\
   run_get_contour [[true; true]; [true; false]] = [1; 1; 0; 0; 0; 0; 1].
 Proof. vm_compute. split; reflexivity. Qed.
+
+(* ---------------------------------------------------------------------- *)
+(* lifted to whole images: every endpoint that iterate_and_store emits      *)
+(* rounds to a boundary pixel of the mask                                   *)
+(* ---------------------------------------------------------------------- *)
+Definition adjacent4 (r c r' c' : nat) : Prop :=
+  (r' = r /\ (c' = S c \/ c = S c')) \/ (c' = c /\ (r' = S r \/ r = S r')).
+
+(* a high pixel with a low 4-neighbour *)
+Definition is_boundary (img : image) (p : pt) : Prop :=
+  exists r c r' c' : nat,
+    p = (Z.of_nat r, Z.of_nat c) /\ px img r c = true /\
+    px img r' c' = false /\ adjacent4 r c r' c'.
+
+Lemma endpoint_on_boundary img r c e :
+  differs (px img r c) (px img r (S c)) (px img (S r) c)
+          (px img (S r) (S c)) e = true ->
+  is_boundary img
+    (round_pt (edge_point (Z.of_nat r) (Z.of_nat c) (px img r c)
+                 (px img r (S c)) (px img (S r) c) (px img (S r) (S c)) e)).
+Proof.
+  intros Hd. rewrite rounded_point_is_high_pixel by exact Hd.
+  unfold is_boundary, adjacent4, high_pixel.
+  destruct e; simpl in Hd.
+  - destruct (px img r c) eqn:E1, (px img r (S c)) eqn:E2;
+      try discriminate.
+    + exists r, c, r, (S c). repeat split; auto.
+    + exists r, (S c), r, c. rewrite Nat2Z.inj_succ. repeat split; auto; try (f_equal; lia).
+  - destruct (px img (S r) c) eqn:E1, (px img (S r) (S c)) eqn:E2;
+      try discriminate.
+    + exists (S r), c, (S r), (S c). rewrite Nat2Z.inj_succ.
+      repeat split; auto; try (f_equal; lia).
+    + exists (S r), (S c), (S r), c. rewrite !Nat2Z.inj_succ.
+      repeat split; auto; try (f_equal; lia).
+  - destruct (px img r c) eqn:E1, (px img (S r) c) eqn:E2;
+      try discriminate.
+    + exists r, c, (S r), c. repeat split; auto.
+    + exists (S r), c, r, c. rewrite Nat2Z.inj_succ. repeat split; auto; try (f_equal; lia).
+  - destruct (px img r (S c)) eqn:E1, (px img (S r) (S c)) eqn:E2;
+      try discriminate.
+    + exists r, (S c), (S r), (S c). rewrite Nat2Z.inj_succ.
+      repeat split; auto; try (f_equal; lia).
+    + exists (S r), (S c), r, (S c). rewrite !Nat2Z.inj_succ.
+      repeat split; auto; try (f_equal; lia).
+Qed.
+
+Lemma contour_points_are_boundary_pixels img vch sgs s :
+  iterate_and_store img vch = Some sgs -> In s sgs ->
+  is_boundary img (round_pt (fst s)) /\ is_boundary img (round_pt (snd s)).
+Proof.
+  unfold iterate_and_store.
+  destruct ((nrows img <? 2)%nat || (ncols img <? 2)%nat); [discriminate|].
+  intros [= <-] Hin.
+  apply in_flat_map in Hin. destruct Hin as (r & _ & Hin).
+  apply in_flat_map in Hin. destruct Hin as (c & _ & Hin).
+  unfold cell_segments in Hin. apply in_map_iff in Hin.
+  destruct Hin as (sg & <- & Hsg).
+  apply emitted_edges_differ in Hsg. destruct Hsg as [H1 H2].
+  cbn [fst snd]. split; apply endpoint_on_boundary; assumption.
+Qed.
+
+(* conversely: every pair of 4-adjacent differing pixels inside the image
+   contributes an endpoint that rounds to its high pixel *)
+Lemma cell_in_store img vch sgs r c s :
+  iterate_and_store img vch = Some sgs ->
+  (S r < nrows img)%nat -> (S c < ncols img)%nat ->
+  In s (cell_segments img vch r c) -> In s sgs.
+Proof.
+  unfold iterate_and_store.
+  destruct ((nrows img <? 2)%nat || (ncols img <? 2)%nat); [discriminate|].
+  intros [= <-] Hr Hc Hin.
+  apply in_flat_map. exists r. split; [apply in_seq; lia|].
+  apply in_flat_map. exists c. split; [apply in_seq; lia|exact Hin].
+Qed.
+
+Lemma edge_endpoint_emitted img vch r c e :
+  differs (px img r c) (px img r (S c)) (px img (S r) c)
+          (px img (S r) (S c)) e = true ->
+  exists s, In s (cell_segments img vch r c) /\
+    (round_pt (fst s) = high_pixel (Z.of_nat r) (Z.of_nat c) (px img r c)
+        (px img r (S c)) (px img (S r) c) (px img (S r) (S c)) e \/
+     round_pt (snd s) = high_pixel (Z.of_nat r) (Z.of_nat c) (px img r c)
+        (px img r (S c)) (px img (S r) c) (px img (S r) (S c)) e).
+Proof.
+  intros Hd.
+  destruct (differing_edge_emitted _ _ _ _ vch e Hd) as (sg & Hsg & He).
+  eexists. split.
+  - unfold cell_segments. apply in_map_iff. exists sg. split;
+      [reflexivity|exact Hsg].
+  - cbn [fst snd]. destruct He as [<-|<-]; [left|right];
+      apply rounded_point_is_high_pixel.
+    + apply (emitted_edges_differ _ _ _ _ vch sg Hsg).
+    + apply (emitted_edges_differ _ _ _ _ vch sg Hsg).
+Qed.
+
+(* every horizontally adjacent pair of differing pixels inside the image
+   contributes an endpoint that rounds to its high pixel *)
+Lemma boundary_pair_emitted_h img vch sgs r c :
+  iterate_and_store img vch = Some sgs ->
+  (r < nrows img)%nat -> (S c < ncols img)%nat ->
+  px img r c <> px img r (S c) ->
+  exists s, In s sgs /\
+    let hp := if px img r c then (Z.of_nat r, Z.of_nat c)
+              else (Z.of_nat r, Z.of_nat (S c)) in
+    (round_pt (fst s) = hp \/ round_pt (snd s) = hp).
+Proof.
+  intros Hs Hr Hc Hne.
+  assert (Hrows : (2 <= nrows img)%nat).
+  { unfold iterate_and_store in Hs.
+    destruct (nrows img <? 2)%nat eqn:E; [discriminate|].
+    apply Nat.ltb_ge in E. exact E. }
+  assert (Hx : xorb (px img r c) (px img r (S c)) = true).
+  { destruct (px img r c), (px img r (S c)); try reflexivity;
+      exfalso; apply Hne; reflexivity. }
+  destruct (Nat.lt_ge_cases (S r) (nrows img)) as [Hlt|Hge].
+  - destruct (edge_endpoint_emitted img vch r c ET Hx) as (s & Hin & Hp).
+    exists s. split; [exact (cell_in_store img vch sgs r c s Hs Hlt Hc Hin)|].
+    cbv zeta. unfold high_pixel in Hp. rewrite Nat2Z.inj_succ.
+    destruct (px img r c); exact Hp.
+  - destruct r as [|r0]; [lia|].
+    assert (Hd : differs (px img r0 c) (px img r0 (S c)) (px img (S r0) c)
+                         (px img (S r0) (S c)) EB = true) by exact Hx.
+    destruct (edge_endpoint_emitted img vch r0 c EB Hd) as (s & Hin & Hp).
+    exists s. split; [exact (cell_in_store img vch sgs r0 c s Hs Hr Hc Hin)|].
+    cbv zeta. unfold high_pixel in Hp. rewrite !Nat2Z.inj_succ.
+    destruct (px img (S r0) c); exact Hp.
+Qed.
+
+Lemma boundary_pair_emitted_v img vch sgs r c :
+  iterate_and_store img vch = Some sgs ->
+  (S r < nrows img)%nat -> (c < ncols img)%nat ->
+  px img r c <> px img (S r) c ->
+  exists s, In s sgs /\
+    let hp := if px img r c then (Z.of_nat r, Z.of_nat c)
+              else (Z.of_nat (S r), Z.of_nat c) in
+    (round_pt (fst s) = hp \/ round_pt (snd s) = hp).
+Proof.
+  intros Hs Hr Hc Hne.
+  assert (Hcols : (2 <= ncols img)%nat).
+  { unfold iterate_and_store in Hs.
+    destruct (nrows img <? 2)%nat; [discriminate|].
+    destruct (ncols img <? 2)%nat eqn:E; [discriminate|].
+    apply Nat.ltb_ge in E. exact E. }
+  assert (Hx : xorb (px img r c) (px img (S r) c) = true).
+  { destruct (px img r c), (px img (S r) c); try reflexivity;
+      exfalso; apply Hne; reflexivity. }
+  destruct (Nat.lt_ge_cases (S c) (ncols img)) as [Hlt|Hge].
+  - destruct (edge_endpoint_emitted img vch r c EL Hx) as (s & Hin & Hp).
+    exists s. split; [exact (cell_in_store img vch sgs r c s Hs Hr Hlt Hin)|].
+    cbv zeta. unfold high_pixel in Hp. rewrite Nat2Z.inj_succ.
+    destruct (px img r c); exact Hp.
+  - destruct c as [|c0]; [lia|].
+    assert (Hd : differs (px img r c0) (px img r (S c0)) (px img (S r) c0)
+                         (px img (S r) (S c0)) ER = true) by exact Hx.
+    destruct (edge_endpoint_emitted img vch r c0 ER Hd) as (s & Hin & Hp).
+    exists s. split; [exact (cell_in_store img vch sgs r c0 s Hs Hr Hc Hin)|].
+    cbv zeta. unfold high_pixel in Hp. rewrite !Nat2Z.inj_succ.
+    destruct (px img r (S c0)); exact Hp.
+Qed.
